@@ -191,13 +191,13 @@ def rule_listing_loops(ctx, rule="C07.ALL"):
         ok, why = True, ""
         for ev, out in Cfg(lambda n: [], p.issub, unroll=1).seq(lp.body):
             writes = [c for n in evaluated(ev) for c in walk_self(n) if isinstance(c, ast.Call) and isinstance(c.func, ast.Attribute) and c.func.attr == "write"]
-            if out[0] == "continue" and not writes:
-                # reasoned exception: entry vanished between listing and stat
+            if out[0] in ("continue", "fall") and not writes:
+                # reasoned exception: entry vanished between listing and stat (`if not exists: continue`, or the line is written under `if exists:`)
                 conds = [(e[1], e[2]) for e in ev if e[0] == "branch"]
                 conds = [(deep_expand(p, t, fn), pol) for t, pol in conds]
                 vanished = any(_is_exists_test(t, var) is (not pol) for t, pol in conds if _is_exists_test(t, var) is not None)
                 if not vanished:
-                    ok, why = False, "an entry is skipped by `continue` for a reason other than having vanished"
+                    ok, why = False, ("an entry is skipped by `continue` for a reason other than having vanished" if out[0] == "continue" else "0 writes for one entry")
             elif out[0] in ("break", "return"):
                 ok, why = False, f"the listing loop is left by `{out[0]}`"
             elif len(writes) != 1:
